@@ -33,6 +33,8 @@ func c19(w *core.World, r *core.Report) {
 	ruleNoResendAfterRedirect(w, r)
 	r.Rule("R19.16", "a redirect answered to one pipelined request is not handed to the requests behind it on the connection", 1)
 	ruleRedirectStaysWithItsRequest(w, r)
+	r.Rule("R19.20", "a failed send or receive of one pipelined request ends every request in flight on that connection and gives the connection up", 2)
+	ruleFailedRequestEndsInFlight(w, r)
 	r.Rule("R19.15", "after an ASK redirect the answer that is judged and returned is the re-sent command's own, not ASKING's", 1)
 	ruleAskReplyIsTheCommands(w, r)
 	r.Rule("R19.14", "a node has one node batch in a plain batch: a new one is opened only after every open one was compared with the node", 1)
